@@ -1671,13 +1671,9 @@ class Stream(AbstractStream):
         
         """
         imol = self._imol
-        if hasattr(imol, '_phase'):
-            if isinstance(imol._phase, tmo._phase.LockedPhase):
-                raise RuntimeError('phase is locked; stream cannot be unlinked')
-            else:
-                imol._phase = imol._phase.copy()
-        imol._data_cache = {}
-        imol.data = imol.data.copy()
+        if hasattr(imol, '_phase') and isinstance(imol._phase, tmo._phase.LockedPhase):
+            raise RuntimeError('phase is locked; stream cannot be unlinked')
+        self._imol = imol.copy()
         self._thermal_condition = self._thermal_condition.copy()
         self.reset_cache()
         
